@@ -3,6 +3,7 @@ import LsLemmas.LoopWitness
   C05 (sync-loop part) — an instance whose name already has snapshots in the bucket uploads
   nothing before it has merged its own newest one; a failed Store is fatal, never skipped.
   For EVERY schedule. (The bucket-level join invariant of C05 is a `Fleet` property.)
+  The guard holds with a forced periodic snapshot overdue as well (last section).
 -/
 namespace Ls.C05
 open Ls Ls.Txn Ls.SyncLoop Ls.Loop
@@ -86,5 +87,97 @@ theorem C05_retry (c : LoopCfg) (b : Bucket) (s : St) (i : In)
     rw [(go_pc c b s i).1, go_eq, goRaw_sendAfterTxn hpc]
     simp only [hro, Bool.false_eq_true, if_false, if_pos hf]
     trivial
+
+/-! ## the guard and the forced periodic snapshot (`storage_force_snapshot_interval`)
+
+  `C05_startup_send_only_if_empty`, `C05_own_leaves_waiting` and `C05_retry` above are about `go`
+  from an arbitrary state: they hold whether or not the force flag is armed. The schedules of
+  `C05_no_upload_before_own` / `C05_send_part_guard` (`run`, events `Ev`) never arm it; here are
+  the same statements for schedules WITH the harness's arming event (`runA`, events `EvA`: an
+  `Ev`, or `arm` — at any yield point), and the decisive step on its own. -/
+
+/-- **A forced snapshot does not bypass the own-instance guard.** At the change check
+    (`beforeInfo`) with a snapshot overdue (`forceArmed = true`) and the own instance in the
+    waiting set — whatever `lastTxn` and `lastSynced` are —, the segment does not reach
+    `beforeSend`: the loop goes to sleep (it cannot end either: the waiting set is not empty),
+    nothing is stored, nothing else changes, and the snapshot stays overdue. -/
+theorem C05_forced_respects_own_guard (c : LoopCfg) (b : Bucket) (s : St) (i : In)
+    (hpc : s.pc = .beforeInfo) (harm : s.forceArmed = true) (hown : c.own ∈ s.waiting) :
+    (go c b s i).1.pc ≠ .beforeSend ∧ (go c b s i).1.pc = .sleep ∧ (go c b s i).2 = b ∧
+    (go c b s i).1.waiting = s.waiting ∧ (go c b s i).1.lastSynced = s.lastSynced ∧
+    (go c b s i).1.env = s.env ∧ (go c b s i).1.forceArmed = true := by
+  obtain ⟨g1, g2, g3, g4⟩ := go_pc c b s i
+  have hb : (go c b s i).2 = b := by
+    rcases go_bucket c b s i with ⟨⟨⟨who, t, ts, snap, hp⟩, _⟩, _⟩ | ⟨_, hb⟩
+    · rw [hpc] at hp; cases hp
+    · exact hb
+  have hf : (go c b s i).1.forceArmed = true := by rw [go_force, hpc]; exact harm
+  have hraw : goRaw c b s i = (afterSend c s, b) := by
+    rw [goRaw_beforeInfo hpc, if_pos (Or.inr harm), if_pos (by simpa using hown)]
+  rw [g1, g2, g3, g4, hraw]
+  obtain ⟨f1, f2, f3, _, _, _⟩ := afterSend_facts c s
+  have hsl : (afterSend c s).pc = .sleep := by
+    rw [afterSend_pc, if_neg]
+    rintro ⟨_, hw⟩
+    rw [hw] at hown; cases hown
+  exact ⟨by simp only [hsl]; exact fun h => (nomatch h), hsl, hb, f3, f2, f1, hf⟩
+
+/-- **No upload while the own instance is waited for — schedules with arming.** As
+    `C05_no_upload_before_own`, for every schedule of loop segments, application transactions,
+    listings, other instances' stores AND armings of the force flag at arbitrary yield points. -/
+theorem C05_no_upload_before_own_armed (c : LoopCfg) (env : Env) (b : Bucket) (evs : List EvA) (i : In)
+    (hst : Stores c (runA c env b evs).st i) :
+    c.own ∉ (runA c env b evs).st.waiting ∧
+    (∀ t ts snap, (runA c env b evs).st.pc = .sendAfterTxn .initial t ts snap →
+      (runA c env b evs).st.waiting = []) := by
+  have h0 := ownGuard_runA c env b evs
+  obtain ⟨⟨who, t, ts, snap, hpc⟩, _⟩ := hst
+  unfold OwnGuard at h0
+  rw [hpc] at h0
+  refine ⟨h0.1, fun t' ts' snap' h => ?_⟩
+  rw [hpc] at h
+  injection h with hw
+  exact h0.2 hw
+
+/-- … and at the yield points before and after the store (as `C05_send_part_guard`) -/
+theorem C05_send_part_guard_armed (c : LoopCfg) (env : Env) (b : Bucket) (evs : List EvA)
+    (hpc : (runA c env b evs).st.pc = .beforeSend ∨
+      (∃ who t ts snap, (runA c env b evs).st.pc = .sendAfterTxn who t ts snap) ∨
+      ∃ who t, (runA c env b evs).st.pc = .sendStored who t) :
+    c.own ∉ (runA c env b evs).st.waiting := by
+  have h0 := ownGuard_runA c env b evs
+  unfold OwnGuard at h0
+  rcases hpc with h | ⟨who, t, ts, snap, h⟩ | ⟨who, t, h⟩ <;> rw [h] at h0
+  · exact h0
+  · exact h0.1
+  · exact h0.1
+
+/-- the guard as a one-step invariant of `go` from ANY state (armed or not): if at the yield
+    points of the send part the own instance is not waited for (`OwnGuard`), the same holds after
+    one more segment; arming, application transactions and listings do not touch it -/
+theorem C05_guard_step (c : LoopCfg) (b : Bucket) (s : St) (i : In) (h : OwnGuard c s) :
+    OwnGuard c (go c b s i).1 ∧ OwnGuard c (armForce s) :=
+  ⟨ownGuard_go c b s i h, h⟩
+
+open Ls.Loop.Witness in
+/-- the hypotheses are satisfiable: instance "a" starts on a bucket that holds a snapshot of its
+    own name; with the clock turned back at `top` the forced change check (third segment) still
+    does not send while "a" is waited for — after the iteration nothing is stored and the snapshot
+    is still overdue; once the own snapshot has been merged, the forced upload happens -/
+example :
+    let bA : Bucket := [{ inst := "a", ts := 1, snap := snapB }]
+    let wait : List EvA := [.ev (.go (inp none)), .arm, .ev (.go (inp none)), .ev (.go (inp none)),
+      .ev (.go (inp none))]
+    let merge : List EvA := [.ev (.go (inp (some ("a", 1)))), .ev (.go (inp none)), .ev (.go (inp none)),
+      .ev (.go (inp none)), .ev (.go (inp none)), .ev (.go (inp none))]
+    (runA cfgS env0 bA (wait.take 3)).st.pc = .beforeInfo ∧
+    (runA cfgS env0 bA (wait.take 3)).st.forceArmed = true ∧
+    cfgS.own ∈ (runA cfgS env0 bA (wait.take 3)).st.waiting ∧
+    (runA cfgS env0 bA wait).st.pc = .top ∧ (runA cfgS env0 bA wait).bucket = bA ∧
+    (runA cfgS env0 bA wait).st.forceArmed = true ∧
+    (runA cfgS env0 bA (wait ++ merge)).bucket.length = 2 ∧
+    (runA cfgS env0 bA (wait ++ merge)).st.forceArmed = false := by
+  refine ⟨by decide +kernel, by decide +kernel, by decide +kernel, by decide +kernel, by decide +kernel,
+    by decide +kernel, by decide +kernel, by decide +kernel⟩
 
 end Ls.C05
